@@ -9,8 +9,11 @@
 //! lazy modifications applied exactly once and in order).  C16 judges heap order in every state of the
 //! same exploration, plus a directed (not exhaustive) menu of long deterministic histories through the
 //! real priority generator for the height bound: single-treap orders, block concatenation, strided
-//! ownership of the creations by several treaps, insert/remove rhythms, queues, and insertions
-//! interleaved with operations that create no node.
+//! ownership of the creations by several treaps, insert/remove rhythms, queues, insertions interleaved
+//! with operations that create no node, regrowth after removals, and — each in a process of its own, so
+//! that "the k-th thread of the process to create a node" is a deterministic notion — histories that
+//! spread the node creations over several threads (every thread ordinal of a process building a treap;
+//! chunks built on different threads and concatenated; nodes created round-robin by several threads).
 
 use rlib_treap::{Treap, TreapItem, TreapItemSized, TreapNode};
 use serde::{Deserialize, Serialize};
@@ -173,86 +176,95 @@ struct Sys {
     max_nodes: usize,
     max_slots: usize,
     mode: Mode,
-    /// Some(p0): the priority a fresh thread's first node creation draws (controlled insert_at)
-    p0: Option<u32>,
     vals: u8,
     /// also create nodes whose item carries a stale pending tag
     dirty: bool,
 }
 
-static UNCONTROLLED_DRAWS: AtomicU64 = AtomicU64::new(0);
 static CONTROLLED_DRAWS: AtomicU64 = AtomicU64::new(0);
+static TIES_PREDICTED: AtomicU64 = AtomicU64::new(0);
+static TIES_NOT_PREDICTABLE: AtomicU64 = AtomicU64::new(0);
+static REDRAWS: AtomicU64 = AtomicU64::new(0);
 
-// The crate's priority generator is per-thread and deterministic, so the k-th node creation of ANY
-// thread draws the same value as the k-th creation of a dedicated "oracle" thread that does nothing
-// else.  Each harness thread counts its own creations; before an `insert_at` it looks up the value that
-// call is going to draw and re-spaces the live priorities around it, which puts the new node at the
-// rank the explorer chose.  If the observed priority differs (a generator shared between threads), the
-// draw is counted as uncontrolled and the state reached is whatever rank came out.
-struct Oracle {
-    seq: std::sync::RwLock<Vec<u32>>,
-    req: std::sync::Mutex<(std::sync::mpsc::Sender<usize>, std::sync::mpsc::Receiver<Vec<u32>>)>,
-}
-
-static ORACLE: std::sync::OnceLock<Oracle> = std::sync::OnceLock::new();
-
-fn oracle() -> &'static Oracle {
-    ORACLE.get_or_init(|| {
-        let (tx_req, rx_req) = std::sync::mpsc::channel::<usize>();
-        let (tx_rep, rx_rep) = std::sync::mpsc::channel::<Vec<u32>>();
-        std::thread::spawn(move || {
-            // this thread creates nodes and nothing else
-            while let Ok(n) = rx_req.recv() {
-                let v: Vec<u32> = (0..n).map(|_| Node::new(It::new(0, 0)).priority).collect();
-                if tx_rep.send(v).is_err() {
-                    break;
-                }
-            }
-        });
-        Oracle { seq: std::sync::RwLock::new(vec![]), req: std::sync::Mutex::new((tx_req, rx_rep)) }
-    })
-}
-
-/// value of the k-th (0-based) node creation of a thread
-fn oracle_get(k: usize) -> u32 {
-    let o = oracle();
-    if let Some(v) = o.seq.read().unwrap().get(k) {
-        return *v;
-    }
-    let ch = o.req.lock().unwrap();
-    let have = o.seq.read().unwrap().len();
-    if k >= have {
-        let want = (k + 1 - have).max(1 << 20);
-        ch.0.send(want).unwrap();
-        let more = ch.1.recv().unwrap();
-        o.seq.write().unwrap().extend(more);
-    }
-    let v = o.seq.read().unwrap()[k];
-    v
-}
-
-/// first k in [from, from + window) whose oracle value is `probe` (one lock, one scan)
-fn oracle_find(from: usize, window: usize, probe: u32) -> Option<usize> {
-    let _ = oracle_get(from + window); // make sure the stretch is materialised
-    let seq = oracle().seq.read().unwrap();
-    if seq.get(from) == Some(&probe) {
-        return Some(from);
-    }
-    seq[from..(from + window).min(seq.len())].iter().position(|&v| v == probe).map(|i| from + i)
+// How insert_at's new node gets the rank the explorer chose, although the crate draws its priority itself:
+//
+// * strictly between two live levels (odd pc): the live priorities are re-spaced so that the levels below
+//   the chosen rank sit at 0, 1, 2, … and the levels above it at …, u32::MAX-1, u32::MAX.  Whatever the
+//   crate draws lands between them (a draw inside one of the two tiny end zones is detected afterwards, the
+//   state is restored and the call repeated).  Nothing about the crate's generator is assumed.
+// * tied with a live level (even pc): the value of the draw has to be known beforehand.  The harness keeps,
+//   per thread, a copy of rlib_rand's own generator and synchronises it with the thread's real generator
+//   at the thread's first node creation (the crate seeds thread number k of the process with a value
+//   derived from k; all k < 65536 are tried against two real draws).  While the copy keeps predicting the
+//   real draws, the tied level is moved onto the predicted value.  If the copy cannot be synchronised or
+//   stops predicting (another generator, another seeding rule, extra draws), tied insertions fall back to
+//   "just above the level" (counted as `insert_at_ties_not_predictable`) — for every thread alike, so the
+//   state reached does not depend on which worker ran the step.
+enum Pred {
+    Unknown,
+    Synced(rlib_rand::Rng),
+    Lost,
 }
 
 thread_local! {
-    /// node creations this harness thread has caused so far
-    static MY_DRAWS: std::cell::Cell<usize> = std::cell::Cell::new(0);
+    static PRED: std::cell::RefCell<Pred> = std::cell::RefCell::new(Pred::Unknown);
 }
 
-fn note_draws(n: usize) {
-    MY_DRAWS.with(|c| c.set(c.get() + n));
+fn real_draw() -> u32 {
+    Node::new(It::new(0, 0)).priority
 }
 
-/// first priorities drawn by a thread that has never created a node
-fn fresh_thread_draws(n: usize) -> Vec<u32> {
-    std::thread::spawn(move || (0..n).map(|_| Node::new(It::new(0, 0)).priority).collect()).join().unwrap()
+/// Draws real probe values and returns the priority this thread's NEXT node creation will get, if the
+/// model generator can tell.
+fn predict_next() -> Option<u32> {
+    const G: u64 = 0x9E37_79B9_7F4A_7C15;
+    PRED.with(|p| {
+        let mut p = p.borrow_mut();
+        match &mut *p {
+            Pred::Lost => None,
+            Pred::Unknown => {
+                let (p1, p2) = (real_draw(), real_draw());
+                for k in 0..(1u64 << 16) {
+                    let mut m = rlib_rand::Rng::from_seed(42 ^ k.wrapping_mul(G));
+                    if m.next_raw() as u32 == p1 && m.next_raw() as u32 == p2 {
+                        let mut look = m;
+                        let nxt = look.next_raw() as u32;
+                        *p = Pred::Synced(m);
+                        return Some(nxt);
+                    }
+                }
+                *p = Pred::Lost;
+                None
+            }
+            Pred::Synced(m) => {
+                let probe = real_draw();
+                // normally the model's very next value; further on if the code under test drew more
+                // priorities than the harness asked for
+                for _ in 0..64 {
+                    if m.next_raw() as u32 == probe {
+                        let mut look = *m;
+                        return Some(look.next_raw() as u32);
+                    }
+                }
+                *p = Pred::Lost;
+                None
+            }
+        }
+    })
+}
+
+/// the crate has just drawn `q` on this thread: keep the model in step
+fn model_saw(q: u32) {
+    PRED.with(|p| {
+        let mut p = p.borrow_mut();
+        if let Pred::Synced(m) = &mut *p {
+            let mut look = *m;
+            if look.next_raw() as u32 == q {
+                *m = look;
+            }
+            // otherwise: leave the model where it is; the next predict_next() searches forward
+        }
+    })
 }
 
 impl Sys {
@@ -412,7 +424,7 @@ impl System for Sys {
                 }
             }
             if total < self.max_nodes {
-                let pcs: Vec<u8> = if self.p0.is_some() { (1..=2 * nlev + 1).collect() } else { vec![2 * nlev + 1] };
+                let pcs: Vec<u8> = (1..=2 * nlev + 1).collect();
                 for pos in 0..=len {
                     for &pc in &pcs {
                         for val in (0..self.vals).chain(if self.dirty { Some(4) } else { None }) {
@@ -512,49 +524,77 @@ impl System for Sys {
             Act::InsertAt(i, pos, pc, val) => {
                 let (i, pos) = (i as usize, pos as usize);
                 let id = Self::fresh_id(s);
-                if self.p0.is_some() {
-                    // Where is this thread's generator?  Draw one probe value and locate it in the oracle
-                    // sequence (normally exactly at this thread's own count; further on if the code under
-                    // test drew priorities the harness did not ask for).
-                    let probe = Node::new(It::new(0, 0)).priority;
-                    let c = MY_DRAWS.with(|c| c.get());
-                    match oracle_find(c, 4096, probe) {
-                        Some(k) => MY_DRAWS.with(|x| x.set(k + 1)),
-                        None => note_draws(1),
-                    }
-                    // skip values too close to the ends of the u32 range to re-space around
-                    let mut exp;
-                    loop {
-                        exp = oracle_get(MY_DRAWS.with(|c| c.get()));
-                        if exp > 64 && exp < u32::MAX - 64 {
+                let nlev = Self::levels(s).len() as u32;
+                // the model generator can only be synchronised at the thread's first node creation
+                if PRED.with(|p| matches!(*p.borrow(), Pred::Unknown)) {
+                    let _ = predict_next();
+                }
+                // tied with a live level: the draw must be known beforehand
+                let mut target = None;
+                if pc % 2 == 0 {
+                    while let Some(e) = predict_next() {
+                        if e > 64 && e < u32::MAX - 64 {
+                            target = Some(e);
                             break;
                         }
-                        let _ = Node::new(It::new(0, 0));
-                        note_draws(1);
                     }
-                    let pc = pc as i64;
+                }
+                let mut eff = if pc % 2 == 0 && target.is_none() { pc + 1 } else { pc } as u32;
+                let backup: Vec<Treap<It>> = s.slots.iter().map(copy_treap).collect();
+                let mut attempts = 0;
+                loop {
+                    attempts += 1;
+                    // stored levels are 2, 4, …, 2*nlev
                     for t in s.slots.iter_mut() {
                         for_each_node_mut(&mut t.root, &mut |n| {
-                            n.priority = (exp as i64 + (n.priority as i64 - pc)) as u32;
+                            n.priority = if n.priority < eff {
+                                n.priority / 2 - 1
+                            } else if n.priority > eff {
+                                u32::MAX - (nlev - n.priority / 2)
+                            } else {
+                                target.unwrap()
+                            };
                         });
                     }
+                    let below = (eff - 1) / 2; // levels strictly below the chosen rank: values 0..below
+                    let above = nlev - eff / 2; // levels strictly above: values > u32::MAX - above
                     s.slots[i].insert_at(pos, make_item(id, val));
-                    note_draws(1);
                     let mut drawn = None;
                     for_each_node(&s.slots[i].root, &mut |n| {
                         if n.item.id == id {
                             drawn = Some(n.priority);
                         }
                     });
-                    if drawn == Some(exp) {
-                        CONTROLLED_DRAWS.fetch_add(1, Ordering::Relaxed);
-                    } else {
-                        UNCONTROLLED_DRAWS.fetch_add(1, Ordering::Relaxed);
+                    if let Some(q) = drawn {
+                        model_saw(q);
                     }
-                } else {
-                    s.slots[i].insert_at(pos, make_item(id, val));
-                    note_draws(1);
-                    UNCONTROLLED_DRAWS.fetch_add(1, Ordering::Relaxed);
+                    let ok = match (drawn, target) {
+                        // the inserted element is missing: let the sequence check below report it
+                        (None, _) => true,
+                        (Some(q), Some(e)) if eff % 2 == 0 => q == e,
+                        (Some(q), _) => q >= below && q <= u32::MAX - above,
+                    };
+                    if ok {
+                        if eff % 2 == 0 {
+                            TIES_PREDICTED.fetch_add(1, Ordering::Relaxed);
+                        } else if pc % 2 == 0 {
+                            TIES_NOT_PREDICTABLE.fetch_add(1, Ordering::Relaxed);
+                        } else {
+                            CONTROLLED_DRAWS.fetch_add(1, Ordering::Relaxed);
+                        }
+                        break;
+                    }
+                    // the draw did not land where it had to (a mispredicted tie, or a value in one of the
+                    // end zones): back to the state before the call
+                    REDRAWS.fetch_add(1, Ordering::Relaxed);
+                    s.slots = backup.iter().map(copy_treap).collect();
+                    if eff % 2 == 0 {
+                        PRED.with(|p| *p.borrow_mut() = Pred::Lost);
+                        eff += 1;
+                    }
+                    if attempts >= 16 {
+                        return Err(format!("insert_at: 16 consecutive priorities drawn inside the end zones [0,{below}) / (u32::MAX-{above}, u32::MAX]"));
+                    }
                 }
                 s.models[i].insert(pos, (id, val % 4));
                 out = 0;
@@ -753,6 +793,19 @@ enum Fill {
     NewFront,
     /// `Treap::from_item(..)`, then appends
     FromItem,
+    /// `t = merge(t, Treap::from_item(..))` for every element (chunks family only)
+    FromItemMerge,
+}
+
+/// In which order the chunks built on different threads are concatenated.
+#[derive(Clone, Copy, Debug, PartialEq)]
+enum Concat {
+    /// `acc = merge(acc, chunk_i)` for i = 0, 1, …
+    Forward,
+    /// `acc = merge(chunk_i, acc)` for i = 0, 1, …: the chunk of the last thread comes first
+    Mirrored,
+    /// adjacent pairs, then adjacent pairs of the results, … (a balanced tree of merges)
+    Pairwise,
 }
 
 /// One directed history.  Every family is parametrised by a size `n` whose meaning is given per variant.
@@ -775,6 +828,22 @@ enum Hist {
     /// appends (front insertions) into one treap with operations that create no node in between;
     /// n = final number of elements
     Interleaved { op: &'static str, front: bool },
+    /// grow, remove, grow again: REGROW_BASE elements, then `removed` ("one" / "half" / "all") of them taken
+    /// out by remove_at at `at` ("front" / "middle" / "back"), then n monotone insertions with no removal in
+    /// between; n = number of insertions of the last phase
+    Regrow { at: &'static str, removed: &'static str, front: bool },
+    /// every thread ordinal of a process: threads #0 … #n-1 run one after another, each is the next thread
+    /// of the process to create a node and builds a treap of ORDINAL_ELEMS elements by appends (front
+    /// insertions); n = number of threads
+    Ordinals { front: bool },
+    /// chunks built on different threads: `threads` workers, one after another, each build a chunk of `c`
+    /// elements on a thread that has never created a node and hand it over; the collecting thread
+    /// concatenates the chunks with Treap::merge; every chunk and every intermediate result is probed
+    Chunks { threads: usize, c: usize, fill: Fill, order: Concat },
+    /// nodes created round-robin by `threads` live workers (worker w creates the single-node treaps
+    /// w, w+threads, … of the sequence, one per request) and put into one treap by the collecting thread
+    /// with merge at the back / at the front / in the middle (split_at + two merges); n = nodes per worker
+    RoundRobin { threads: usize, mode: &'static str },
 }
 
 const BASIC: &[&str] = &["append", "push_front", "insert_middle", "rotate", "append_remove_alternate", "two_treaps_then_merge", "from_item_merge", "insert_one_third"];
@@ -784,6 +853,16 @@ const BLOCK_SIZES: &[usize] = &[1, 2, 8, 64];
 const STRIDES: &[usize] = &[2, 3, 5, 7, 8, 10, 13, 21, 34, 55, 89, 100, 128, 144, 233, 377, 1000];
 const QUEUE_LENS: &[usize] = &[64, 256, 1024, 4096, 16384];
 const QUIET_OPS: &[&str] = &["new_empty", "merge_empty", "other_rotate", "other_queries", "self_split_merge", "all"];
+const REGROW_BASE: usize = 1000;
+/// elements per thread of the thread-ordinal sweep: a path of 256 is far over the bound (60.0)
+const ORDINAL_ELEMS: usize = 256;
+const CHUNK_THREADS: &[usize] = &[2, 4, 8, 16, 32];
+const CHUNK_SIZES: &[usize] = &[1, 8, 100, 1000, 10000];
+/// Worker counts of the round-robin family.  If the threads' generators repeat each other, T workers
+/// produce runs of T equal priorities; merge lets the right root win a tie, so the height becomes about
+/// T times the number of running minima of the stream (over the bound from T = 8 on).
+const RR_THREADS: &[usize] = &[2, 4, 8, 16, 32];
+const RR_MODES: &[&str] = &["back", "front", "middle"];
 
 /// The whole menu, simplest first inside every family.
 fn menu() -> Vec<Hist> {
@@ -807,7 +886,40 @@ fn menu() -> Vec<Hist> {
     for front in [false, true] {
         v.extend(QUIET_OPS.iter().map(|&op| Hist::Interleaved { op, front }));
     }
+    for removed in ["one", "half", "all"] {
+        for at in ["front", "middle", "back"] {
+            for front in [false, true] {
+                v.push(Hist::Regrow { at, removed, front });
+            }
+        }
+    }
+    for front in [false, true] {
+        v.push(Hist::Ordinals { front });
+    }
+    for &threads in CHUNK_THREADS {
+        for &c in CHUNK_SIZES {
+            for fill in [Fill::NewAppend, Fill::NewFront, Fill::FromItemMerge] {
+                for order in [Concat::Forward, Concat::Mirrored, Concat::Pairwise] {
+                    v.push(Hist::Chunks { threads, c, fill, order });
+                }
+            }
+        }
+    }
+    for &threads in RR_THREADS {
+        for &mode in RR_MODES {
+            v.push(Hist::RoundRobin { threads, mode });
+        }
+    }
     v
+}
+
+fn fill_name(fill: Fill) -> &'static str {
+    match fill {
+        Fill::NewAppend => "new+append",
+        Fill::NewFront => "new+push_front",
+        Fill::FromItem => "from_item+append",
+        Fill::FromItemMerge => "from_item+merge",
+    }
 }
 
 impl Hist {
@@ -816,18 +928,22 @@ impl Hist {
         let end = |front: bool| if front { "front" } else { "back" };
         match *self {
             Hist::Basic(m) => m.to_string(),
-            Hist::Blocks { b, fill, blk_left } => {
-                let f = match fill {
-                    Fill::NewAppend => "new+append",
-                    Fill::NewFront => "new+push_front",
-                    Fill::FromItem => "from_item+append",
-                };
-                format!("blocks/b={b}/{f}/{}", if blk_left { "merge(blk,t)" } else { "merge(t,blk)" })
-            }
+            Hist::Blocks { b, fill, blk_left } => format!("blocks/b={b}/{}/{}", fill_name(fill), if blk_left { "merge(blk,t)" } else { "merge(t,blk)" }),
             Hist::Strided { k, front } => format!("strided/k={k}/{}", end(front)),
             Hist::Window { w, front } => format!("window/w={w}/{}", end(front)),
             Hist::Queue { len, front } => format!("queue/len={len}/{}", end(front)),
             Hist::Interleaved { op, front } => format!("interleaved/{op}/{}", end(front)),
+            Hist::Regrow { at, removed, front } => format!("regrow/remove_{removed}_at_{at}/{}", end(front)),
+            Hist::Ordinals { front } => format!("thread_ordinals/{}", end(front)),
+            Hist::Chunks { threads, c, fill, order } => {
+                let o = match order {
+                    Concat::Forward => "merge(acc,chunk)",
+                    Concat::Mirrored => "merge(chunk,acc)",
+                    Concat::Pairwise => "pairwise",
+                };
+                format!("chunks/T={threads}/c={c}/{}/{o}", fill_name(fill))
+            }
+            Hist::RoundRobin { threads, mode } => format!("roundrobin/T={threads}/{mode}"),
         }
     }
 
@@ -840,6 +956,10 @@ impl Hist {
             Hist::Window { .. } => "window",
             Hist::Queue { .. } => "queue",
             Hist::Interleaved { .. } => "interleaved",
+            Hist::Regrow { .. } => "regrow",
+            Hist::Ordinals { .. } => "thread_ordinals",
+            Hist::Chunks { .. } => "chunks",
+            Hist::RoundRobin { .. } => "roundrobin",
         }
     }
 
@@ -848,7 +968,18 @@ impl Hist {
         let n = if quick { 100_000 } else { 1_000_000 };
         let total = if quick { 1 << 17 } else { 1 << 20 };
         match *self {
-            Hist::Basic(_) | Hist::Blocks { .. } | Hist::Interleaved { .. } => n,
+            Hist::Basic(_) | Hist::Blocks { .. } | Hist::Interleaved { .. } | Hist::Regrow { .. } => n,
+            Hist::Ordinals { .. } => {
+                if quick {
+                    4096
+                } else {
+                    65536
+                }
+            }
+            // the parameters are part of the history: n = total number of elements
+            Hist::Chunks { threads, c, .. } => threads * c,
+            // every node costs two thread switches
+            Hist::RoundRobin { threads, .. } => total / 8 / threads,
             // at least 256 elements per treap: a chain is far over the bound (60.0) there
             Hist::Strided { k, .. } => (total / k).max(256),
             Hist::Window { w, .. } => (total / 2 / w).max(256),
@@ -862,7 +993,19 @@ impl Hist {
     fn offsets(&self) -> &'static [usize] {
         match self {
             Hist::Strided { .. } => &[0, 17, 1000],
+            // every thread of these histories is a fresh one
+            Hist::Ordinals { .. } | Hist::Chunks { .. } | Hist::RoundRobin { .. } => &[0],
             _ => &[0, 1, 2, 3, 17, 1000],
+        }
+    }
+
+    /// Thread ordinals (threads of the process that created a node before the history's thread does) at
+    /// which the history runs with stream offset 0, besides ordinal 0: the code may give every thread a
+    /// generator state of its own, and the two strictly monotone orders are the ones a weak state shows on.
+    fn later_threads(&self) -> &'static [usize] {
+        match self {
+            Hist::Basic("append") | Hist::Basic("push_front") => &[1, 2, 3, 17, 1000],
+            _ => &[],
         }
     }
 
@@ -874,6 +1017,11 @@ impl Hist {
             Hist::Window { w, .. } => 2 * n * w,
             Hist::Queue { len, .. } => 2 * (n + len),
             Hist::Interleaved { .. } => 3 * n,
+            Hist::Regrow { .. } => n,
+            // a thread start costs about as much as a few hundred insertions
+            Hist::Ordinals { .. } => n * 4 * ORDINAL_ELEMS,
+            Hist::Chunks { threads, .. } => 2 * n + threads * 1000,
+            Hist::RoundRobin { threads, .. } => 100 * n * threads,
         }
     }
 }
@@ -882,6 +1030,8 @@ impl Hist {
 struct Prober {
     label: String,
     offset: usize,
+    /// which treap of the history the next probes look at ("" or a prefix ending in ": ")
+    ctx: String,
     /// size from which the next "doubling" probe is due
     next: usize,
     maxh: usize,
@@ -907,7 +1057,7 @@ impl Prober {
         self.probes += 1;
         self.maxh = self.maxh.max(h);
         let (name, offset) = (&self.label, self.offset);
-        let wh = || which.map_or(String::new(), |(i, k)| format!("treap #{i} of {k}: "));
+        let wh = || which.map_or(self.ctx.clone(), |(i, k)| format!("{}treap #{i} of {k}: ", self.ctx));
         if (h as f64) > bound(sz) {
             return Err(format!("history {name} (offset {offset}): {}height {h} at {sz} elements after {steps} operations exceeds 5*log2(n+1)+20 = {:.1}", wh(), bound(sz)));
         }
@@ -933,19 +1083,63 @@ struct MenuOk {
     probes: u64,
 }
 
+struct MenuFail {
+    msg: String,
+    /// a smaller size parameter that replays the same failure (thread_ordinals: the sweep up to the
+    /// failing thread)
+    n: Option<usize>,
+    /// not a verdict: the history could not be executed (its process could not be started, …)
+    machinery: bool,
+}
+
+impl From<String> for MenuFail {
+    fn from(msg: String) -> MenuFail {
+        MenuFail { msg, n: None, machinery: false }
+    }
+}
+
+/// Runs `f` on a new thread (which therefore has never created a node) with a stack of `stack_mb` MiB and
+/// waits for it.
+fn on_new_thread<R: Send + 'static>(what: &str, stack_mb: usize, f: impl FnOnce() -> R + Send + 'static) -> Result<R, String> {
+    std::thread::Builder::new()
+        .stack_size(stack_mb << 20)
+        .spawn(f)
+        .map_err(|e| format!("cannot start a thread: {e}"))?
+        .join()
+        .map_err(|_| format!("{what} panicked"))
+}
+
+/// One chunk of `c` elements, after `offset` node creations of the calling thread.
+fn build_chunk(fill: Fill, c: usize, offset: usize) -> Treap<Sz> {
+    for _ in 0..offset {
+        let _ = TreapNode::new(item());
+    }
+    let mut t: Treap<Sz> = Treap::new();
+    for i in 0..c {
+        match fill {
+            Fill::NewAppend => t.insert_at(i, item()),
+            Fill::NewFront => t.insert_at(0, item()),
+            Fill::FromItem if i == 0 => t = Treap::from_item(item()),
+            Fill::FromItem => t.insert_at(i, item()),
+            Fill::FromItemMerge => t = Treap::merge(t, Treap::from_item(item())),
+        }
+    }
+    t
+}
+
 fn item() -> Sz {
     Sz { size: 1 }
 }
 
 /// Runs one history with size parameter `n` after `offset` prior node creations (stream offset), probing
 /// height and heap order at every doubling.  Returns Err(description) on the first violation.
-fn menu_history(hist: Hist, n: usize, offset: usize) -> Result<MenuOk, String> {
+fn menu_history(hist: Hist, n: usize, offset: usize) -> Result<MenuOk, MenuFail> {
     for _ in 0..offset {
         let _ = TreapNode::new(item());
     }
     let mut t: Treap<Sz> = Treap::new();
     let mut other: Treap<Sz> = Treap::new();
-    let mut p = Prober { label: hist.label(), offset, next: 64, maxh: 0, probes: 0 };
+    let mut p = Prober { label: hist.label(), offset, ctx: String::new(), next: 64, maxh: 0, probes: 0 };
     let mut steps = 0usize;
     let mut expect_size = n;
     match hist {
@@ -1033,14 +1227,7 @@ fn menu_history(hist: Hist, n: usize, offset: usize) -> Result<MenuOk, String> {
             let blocks = n.div_ceil(b);
             expect_size = blocks * b;
             for _ in 0..blocks {
-                let mut blk: Treap<Sz> = match fill {
-                    Fill::NewAppend | Fill::NewFront => Treap::new(),
-                    Fill::FromItem => Treap::from_item(item()),
-                };
-                while blk.size() < b {
-                    let s = blk.size();
-                    blk.insert_at(if fill == Fill::NewFront { 0 } else { s }, item());
-                }
+                let blk = build_chunk(fill, b, 0);
                 steps += b + 1;
                 // a block is a treap of the program like any other (it can only fail from 46 elements on)
                 if (b as f64) > bound(b) {
@@ -1119,7 +1306,7 @@ fn menu_history(hist: Hist, n: usize, offset: usize) -> Result<MenuOk, String> {
                 if does("new_empty") {
                     let e: Treap<Sz> = Treap::new();
                     if !e.is_empty() || e.size() != 0 {
-                        return Err(format!("history {} (offset {offset}): Treap::new() is not empty", p.label));
+                        return Err(format!("history {} (offset {offset}): Treap::new() is not empty", p.label).into());
                     }
                     steps += 1;
                 }
@@ -1136,7 +1323,7 @@ fn menu_history(hist: Hist, n: usize, offset: usize) -> Result<MenuOk, String> {
                 if does("other_queries") {
                     let ok = other.first().is_some() && other.last().is_some() && other.root().is_some() && other.size() == 1000;
                     if !ok {
-                        return Err(format!("history {} (offset {offset}): the second treap lost elements", p.label));
+                        return Err(format!("history {} (offset {offset}): the second treap lost elements", p.label).into());
                     }
                     steps += 4;
                 }
@@ -1150,57 +1337,261 @@ fn menu_history(hist: Hist, n: usize, offset: usize) -> Result<MenuOk, String> {
             }
             p.now(&other, steps, None)?;
         }
+        Hist::Regrow { at, removed, front } => {
+            for i in 0..REGROW_BASE {
+                t.insert_at(if front { 0 } else { i }, item());
+            }
+            let r = match removed {
+                "one" => 1,
+                "half" => REGROW_BASE / 2,
+                _ => REGROW_BASE,
+            };
+            for _ in 0..r {
+                let s = t.size();
+                let _ = t.remove_at(match at {
+                    "front" => 0,
+                    "middle" => s / 2,
+                    _ => s - 1,
+                });
+            }
+            steps += REGROW_BASE + r;
+            p.now(&t, steps, None)?;
+            for _ in 0..n {
+                let s = t.size();
+                t.insert_at(if front { 0 } else { s }, item());
+                steps += 1;
+                p.grown(&t, steps)?;
+            }
+            expect_size = REGROW_BASE - r + n;
+        }
+        Hist::Ordinals { front } => {
+            for k in 0..n {
+                let label = p.label.clone();
+                let r = on_new_thread("the thread", 2, move || -> Result<(usize, u64), String> {
+                    for _ in 0..offset {
+                        let _ = TreapNode::new(item());
+                    }
+                    let mut q = Prober { label, offset, ctx: format!("thread #{k} of the process to create a node: "), next: 64, maxh: 0, probes: 0 };
+                    let mut t: Treap<Sz> = Treap::new();
+                    for i in 0..ORDINAL_ELEMS {
+                        t.insert_at(if front { 0 } else { i }, item());
+                        q.grown(&t, i + 1)?;
+                    }
+                    if t.size() != ORDINAL_ELEMS {
+                        return Err(format!("history {}: {}size() is {} after {ORDINAL_ELEMS} insertions", q.label, q.ctx, t.size()));
+                    }
+                    Ok((q.maxh, q.probes))
+                });
+                match r.and_then(|x| x) {
+                    Ok((h, pr)) => {
+                        p.maxh = p.maxh.max(h);
+                        p.probes += pr;
+                        steps += ORDINAL_ELEMS;
+                    }
+                    // the threads before #k are history: the sweep up to #k replays the failure
+                    Err(msg) => return Err(MenuFail { msg, n: Some(k + 1), machinery: false }),
+                }
+            }
+            expect_size = 0;
+        }
+        Hist::Chunks { threads, c, fill, order } => {
+            let mut parts: Vec<Treap<Sz>> = vec![];
+            for i in 0..threads {
+                let chunk = on_new_thread("the thread building a chunk", 64, move || build_chunk(fill, c, offset)).map_err(|m| format!("history {} (offset {offset}): {m}", p.label))?;
+                steps += c;
+                p.ctx = format!("chunk built by thread #{i}: ");
+                p.now(&chunk, steps, None)?;
+                parts.push(chunk);
+            }
+            p.ctx.clear();
+            match order {
+                Concat::Forward | Concat::Mirrored => {
+                    for x in parts {
+                        t = if order == Concat::Forward { Treap::merge(t, x) } else { Treap::merge(x, t) };
+                        steps += 1;
+                        p.now(&t, steps, None)?;
+                    }
+                }
+                Concat::Pairwise => {
+                    while parts.len() > 1 {
+                        let mut next = vec![];
+                        let mut it = parts.into_iter();
+                        while let Some(a) = it.next() {
+                            match it.next() {
+                                Some(b) => {
+                                    let m = Treap::merge(a, b);
+                                    steps += 1;
+                                    p.now(&m, steps, None)?;
+                                    next.push(m);
+                                }
+                                None => next.push(a),
+                            }
+                        }
+                        parts = next;
+                    }
+                    t = parts.pop().unwrap_or_default();
+                }
+            }
+            expect_size = threads * c;
+        }
+        Hist::RoundRobin { threads, mode } => {
+            use std::sync::mpsc::channel;
+            // worker w answers every request with one freshly created single-node treap (None: it panicked)
+            let (tx_node, rx_node) = channel::<Option<Treap<Sz>>>();
+            let mut requests = vec![];
+            for _ in 0..threads {
+                let (tx_req, rx_req) = channel::<()>();
+                let tx_node = tx_node.clone();
+                std::thread::spawn(move || {
+                    for _ in 0..offset {
+                        let _ = TreapNode::new(item());
+                    }
+                    while rx_req.recv().is_ok() {
+                        if tx_node.send(catch(|| Treap::from_item(item())).ok()).is_err() {
+                            break;
+                        }
+                    }
+                });
+                requests.push(tx_req);
+            }
+            for _ in 0..n {
+                for (w, req) in requests.iter().enumerate() {
+                    let x = match req.send(()).ok().and_then(|_| rx_node.recv().ok()).flatten() {
+                        Some(x) => x,
+                        None => return Err(format!("history {} (offset {offset}): worker #{w} panicked while creating a node", p.label).into()),
+                    };
+                    t = match mode {
+                        "back" => Treap::merge(t, x),
+                        "front" => Treap::merge(x, t),
+                        _ => {
+                            let s = t.size();
+                            let (a, b) = t.split_at(s / 2);
+                            Treap::merge(Treap::merge(a, x), b)
+                        }
+                    };
+                    steps += 1;
+                    p.grown(&t, steps)?;
+                }
+            }
+            expect_size = n * threads;
+        }
     }
     p.now(&t, steps, None)?;
     if t.size() != expect_size {
-        return Err(format!("history {}: size() is {} after building {} elements", p.label, t.size(), expect_size));
+        return Err(format!("history {}: size() is {} after building {} elements", p.label, t.size(), expect_size).into());
     }
     Ok(MenuOk { maxh: p.maxh, steps, probes: p.probes })
 }
 
-/// Each (history, offset) runs in its own thread: the stack is generous (a degenerate tree is caught by
-/// the probes long before recursion depth matters) and, with a per-thread generator, the stream offset
-/// is exact.
-fn menu_case(hist: Hist, n: usize, offset: usize) -> Result<MenuOk, String> {
-    std::thread::Builder::new()
-        .stack_size(256 << 20)
-        .spawn(move || menu_history(hist, n, offset))
-        .unwrap()
-        .join()
-        .unwrap_or_else(|_| Err(format!("history {} (offset {offset}) panicked", hist.label())))
+/// One case of the menu: the history, its size parameter, the stream offset (node creations of the
+/// history's thread before it starts) and the thread ordinal (how many threads of the process have
+/// created a node before the history's thread does).
+#[derive(Clone, Copy)]
+struct Case {
+    hist: Hist,
+    n: usize,
+    offset: usize,
+    thread: usize,
+}
+
+impl Case {
+    fn signature(&self) -> String {
+        let later = if self.thread > 0 { format!(":thread={}", self.thread) } else { String::new() };
+        format!("menu:{}:offset={}:n={}{later}", self.hist.label(), self.offset, self.n)
+    }
+
+    fn to_json(&self) -> Value {
+        json!({"kind": "menu", "name": self.hist.label(), "n": self.n, "offset": self.offset, "thread": self.thread})
+    }
+
+    fn from_json(v: &Value) -> Result<Case, String> {
+        let name = v["name"].as_str().unwrap_or("");
+        let hist = menu().into_iter().find(|h| h.label() == name).ok_or_else(|| format!("unknown history {name:?}"))?;
+        match (v["n"].as_u64(), v["offset"].as_u64()) {
+            (Some(n), Some(offset)) => Ok(Case { hist, n: n as usize, offset: offset as usize, thread: v["thread"].as_u64().unwrap_or(0) as usize }),
+            _ => Err("n / offset missing".into()),
+        }
+    }
+
+    /// Executes the case in THIS process, which must not have created a node yet: `thread` threads, one
+    /// after another, create one node each; then the history runs on a thread of its own (generous stack:
+    /// a degenerate tree is caught by the probes long before recursion depth matters).  Whatever the code
+    /// under test keeps per thread or per process, the outcome is a function of the case alone.
+    fn run_here(&self) -> Result<MenuOk, MenuFail> {
+        let Case { hist, n, offset, thread } = *self;
+        let fail = |what: &str| MenuFail::from(format!("history {} (offset {offset}): {what}", hist.label()));
+        for _ in 0..thread {
+            on_new_thread("a thread creating one node", 1, || drop(TreapNode::new(item()))).map_err(|m| fail(&m))?;
+        }
+        std::thread::Builder::new()
+            .stack_size(256 << 20)
+            .spawn(move || menu_history(hist, n, offset))
+            .map_err(|e| MenuFail { msg: format!("cannot start a thread: {e}"), n: None, machinery: true })?
+            .join()
+            .unwrap_or_else(|_| Err(fail("panicked")))
+    }
+
+    /// `run_here` in a new process of this binary.  Anything but a well-formed answer is a machinery
+    /// problem, never a verdict.
+    fn run_in_child(&self) -> Result<MenuOk, MenuFail> {
+        let machinery = |msg: String| MenuFail { msg: format!("{} in a process of its own: {msg}", self.signature()), n: None, machinery: true };
+        let exe = std::env::current_exe().map_err(|e| machinery(format!("current_exe: {e}")))?;
+        let out = std::process::Command::new(&exe).args(["C16", "quick"]).env(CASE_ENV, self.to_json().to_string()).output().map_err(|e| machinery(format!("cannot run {}: {e}", exe.display())))?;
+        let text = String::from_utf8_lossy(&out.stdout);
+        let v: Value = match text.lines().find_map(|l| l.strip_prefix("CASE-RESULT ")).map(serde_json::from_str) {
+            Some(Ok(v)) => v,
+            _ => return Err(machinery(format!("no result ({:?})", out.status))),
+        };
+        match (v["ok"].as_bool(), v["msg"].as_str()) {
+            (Some(true), _) => Ok(MenuOk { maxh: v["maxh"].as_u64().unwrap_or(0) as usize, steps: v["steps"].as_u64().unwrap_or(0) as usize, probes: v["probes"].as_u64().unwrap_or(0) }),
+            (Some(false), Some(msg)) => Err(MenuFail { msg: msg.to_string(), n: v["n"].as_u64().map(|x| x as usize), machinery: v["machinery"].as_bool().unwrap_or(false) }),
+            _ => Err(machinery("malformed result".into())),
+        }
+    }
+}
+
+/// Environment variable that turns this binary into the executor of ONE case of the menu.
+const CASE_ENV: &str = "ENG_TREAP_MENU_CASE";
+
+/// The other end of `Case::run_in_child`.
+fn child_main(case: &str) -> ! {
+    let case = match serde_json::from_str::<Value>(case).map_err(|e| e.to_string()).and_then(|v| Case::from_json(&v)) {
+        Ok(c) => c,
+        Err(e) => {
+            eprintln!("malformed {CASE_ENV}: {e}");
+            std::process::exit(2)
+        }
+    };
+    let r = match case.run_here() {
+        Ok(ok) => json!({"ok": true, "maxh": ok.maxh, "steps": ok.steps, "probes": ok.probes}),
+        Err(f) => json!({"ok": false, "msg": f.msg, "n": f.n, "machinery": f.machinery}),
+    };
+    println!("CASE-RESULT {r}");
+    std::process::exit(0)
 }
 
 // ---------------------------------------------------------------------------------------------
 
-fn sys_for(mode: Mode, n: usize, p0: Option<u32>) -> Sys {
-    Sys { max_nodes: n, max_slots: 3, mode, p0, vals: 2, dirty: true }
+fn sys_for(mode: Mode, n: usize) -> Sys {
+    Sys { max_nodes: n, max_slots: 3, mode, vals: 2, dirty: true }
 }
 
-/// Some(_) iff the generator is per-thread and deterministic (two fresh threads and the oracle thread
-/// draw the same values), i.e. insert_at's priority can be controlled.
-/// Plain re-execution of a history on a FRESH thread (its priority generator at the start of its
-/// stream, advanced by `predraws` draws): identical every time, whatever the exploring threads had drawn.
-fn replay_fresh(mode: Mode, n: usize, p0: Option<u32>, hist: Vec<Value>, predraws: usize) -> Result<(), String> {
+/// Plain re-execution of a history on a FRESH thread (its priority generator at the start of its stream,
+/// advanced by `predraws` draws).  The states reached do not depend on the values drawn (see the comment
+/// on `Pred`); `predraws` only matters for code under test that draws priorities of its own.
+fn replay_fresh(mode: Mode, n: usize, hist: Vec<Value>, predraws: usize) -> Result<(), String> {
     std::thread::spawn(move || {
         for _ in 0..predraws {
-            let _ = Node::new(It::new(0, 0));
+            let _ = real_draw();
         }
-        MY_DRAWS.with(|c| c.set(predraws));
-        replay_history(&sys_for(mode, n, p0), &hist)
+        if predraws > 0 {
+            // the model generator is synchronised at a thread's first node creation only
+            PRED.with(|p| *p.borrow_mut() = Pred::Lost);
+        }
+        replay_history(&sys_for(mode, n), &hist)
     })
     .join()
     .unwrap_or_else(|_| Err("replay thread panicked".to_string()))
-}
-
-fn measure_p0() -> Option<u32> {
-    let a = fresh_thread_draws(4);
-    let b = fresh_thread_draws(4);
-    let o: Vec<u32> = (0..4).map(oracle_get).collect();
-    if a == b && a == o {
-        Some(a[0])
-    } else {
-        None
-    }
 }
 
 /// direct checks on the public constructors that the exploration does not call
@@ -1218,7 +1609,6 @@ fn check_constructors() -> Result<(), String> {
         return Err("Treap::default() is not empty".into());
     }
     let mut t = Treap::from_item(It::new(7, 2));
-    note_draws(4);
     let got: Vec<(u8, u8)> = t.collect().iter().map(|x| (x.id, x.val)).collect();
     if got != vec![(7, 2)] || t.size() != 1 || t.is_empty() {
         return Err(format!("Treap::from_item gives {:?} size {}", got, t.size()));
@@ -1237,6 +1627,9 @@ fn check_constructors() -> Result<(), String> {
 fn main() {
     let args = Args::parse();
     quiet_panics();
+    if let Ok(case) = std::env::var(CASE_ENV) {
+        child_main(&case);
+    }
     let mode = match args.prop.as_str() {
         "C03" => Mode::C03,
         "C16" => Mode::C16,
@@ -1245,18 +1638,19 @@ fn main() {
             std::process::exit(2)
         }
     };
+    // a `--replay` process has created no node yet: it is itself the "process of its own" of a case
+    let fresh_process = args.replay.is_some();
     let confirm = move |v: &Value| -> Result<(), String> {
         match v["kind"].as_str().unwrap_or("") {
             "menu" => {
-                let name = v["name"].as_str().unwrap_or("");
-                let hist = menu().into_iter().find(|h| h.label() == name).ok_or_else(|| format!("replay file names an unknown history {name:?}"))?;
-                menu_case(hist, v["n"].as_u64().unwrap() as usize, v["offset"].as_u64().unwrap() as usize).map(|_| ())
+                let case = Case::from_json(v).map_err(|e| format!("replay file: {e}"))?;
+                let r = if fresh_process { case.run_here() } else { case.run_in_child() };
+                r.map(|_| ()).map_err(|f| f.msg)
             }
             "constructors" => check_constructors(),
             _ => {
-                let p0 = if v["controlled"].as_bool().unwrap_or(false) { measure_p0() } else { None };
                 let hist: Vec<Value> = v["history"].as_array().unwrap().clone();
-                replay_fresh(mode, v["n"].as_u64().unwrap() as usize, p0, hist, v["predraws"].as_u64().unwrap_or(0) as usize)
+                replay_fresh(mode, v["n"].as_u64().unwrap() as usize, hist, v["predraws"].as_u64().unwrap_or(0) as usize)
             }
         }
     };
@@ -1265,8 +1659,6 @@ fn main() {
     }
     let mut run = Run::new(&args, "treap", "model_checking");
     let quick = args.tier == Tier::Quick;
-    let p0 = measure_p0();
-    run.cov("insert_at_priority_controlled", p0.is_some());
 
     // (nodes, depth bound)
     // (nodes, depth bound, also create nodes that carry a stale pending tag)
@@ -1285,7 +1677,7 @@ fn main() {
     let mut table = vec![];
     let mut exhaustive = true;
     for (n, depth, dirty) in plan {
-        let mut sys = sys_for(mode, n, p0);
+        let mut sys = sys_for(mode, n);
         sys.dirty = dirty;
         let cfg = ExploreCfg { max_depth: depth, max_states: 25_000_000, wall_cap_s: if quick { 40.0 } else { 1200.0 } };
         let t0 = std::time::Instant::now();
@@ -1301,8 +1693,8 @@ fn main() {
             let sig = format!("explore:N={}:{}", n, serde_json::to_string(&f.history).unwrap());
             // a defect that draws priorities of its own makes the outcome depend on where the thread's
             // generator stands: look for the first stream offset at which a fresh thread reproduces it
-            let predraws = (0..24usize).find(|&d| replay_fresh(mode, n, p0, f.history.clone(), d).is_err()).unwrap_or(0);
-            run.violation(Violation::new(sig, format!("[N={n}] {}", f.message), json!({"kind": "history", "n": n, "controlled": p0.is_some(), "history": f.history, "predraws": predraws})));
+            let predraws = (0..24usize).find(|&d| replay_fresh(mode, n, f.history.clone(), d).is_err()).unwrap_or(0);
+            run.violation(Violation::new(sig, format!("[N={n}] {}", f.message), json!({"kind": "history", "n": n, "history": f.history, "predraws": predraws})));
             break;
         }
         for h in r.sample_histories.iter().take(1) {
@@ -1320,12 +1712,14 @@ fn main() {
     run.cov("distinct_outcomes", outcomes);
     run.cov("parts", Value::Array(table));
     run.cov("insert_at_draws_controlled", CONTROLLED_DRAWS.load(Ordering::Relaxed));
-    run.cov("insert_at_draws_uncontrolled", UNCONTROLLED_DRAWS.load(Ordering::Relaxed));
-    run.cov("rule", "BFS over states of up to 3 live treaps with at most N nodes (values in {0,1}, lazy add-1 / assign-0 tags over Z3), every action in every reached state: New at every priority rank (strictly between or tied with live levels), Merge of every ordered pair, split_at / split_by at every position, insert_at at every position and priority rank (the call runs on a fresh thread whose first draw is known, live priorities are re-spaced around it), remove_at, Apply of each modification at the root, first/last/collect/size/root, merge with an empty treap; parts without depth_bound run to closure; state identity = pre-order (priority rank, value, size, tag, aggregate) per treap, treaps sorted");
+    run.cov("insert_at_ties_with_predicted_draw", TIES_PREDICTED.load(Ordering::Relaxed));
+    run.cov("insert_at_ties_not_predictable", TIES_NOT_PREDICTABLE.load(Ordering::Relaxed));
+    run.cov("insert_at_calls_repeated", REDRAWS.load(Ordering::Relaxed));
+    run.cov("rule", "BFS over states of up to 3 live treaps with at most N nodes (values in {0,1}, lazy add-1 / assign-0 tags over Z3), every action in every reached state: New at every priority rank (strictly between or tied with live levels), Merge of every ordered pair, split_at / split_by at every position, insert_at at every position and priority rank (strictly between levels: live priorities are re-spaced to the two ends of the u32 range so that any draw lands at the chosen rank; tied with a level: that level is moved onto the draw predicted by a per-thread copy of the crate's generator), remove_at, Apply of each modification at the root, first/last/collect/size/root, merge with an empty treap; parts without depth_bound run to closure; state identity = pre-order (priority rank, value, size, tag, aggregate) per treap, treaps sorted");
     run.assume("the harness item (value, size, word aggregate, affine tag) is a lawful TreapItem; a node without children does not record a pending tag (nothing can read it)");
 
     if mode == Mode::C16 {
-        // directed long histories, real generator: one thread per (history, stream offset)
+        // directed long histories, real generator: one process per case
         let hists = menu();
         // the two strictly monotone insertion orders are the ones a weak priority source degenerates on
         // first: they run to 10^6 elements in the quick tier as well
@@ -1336,22 +1730,29 @@ fn main() {
                 h.size(quick)
             }
         };
-        let cases: Vec<(Hist, usize, usize)> = hists.iter().flat_map(|h| h.offsets().iter().map(move |o| (*h, *o))).map(|(h, o)| (h, o, size_of(&h, o))).collect();
-        let results: Vec<Result<MenuOk, String>> = {
+        // menu order (simplest parameters first); per history the stream offsets, then the later threads
+        let cases: Vec<Case> = hists
+            .iter()
+            .flat_map(|h| {
+                let first = h.offsets().iter().map(|&o| Case { hist: *h, n: size_of(h, o), offset: o, thread: 0 });
+                let later = h.later_threads().iter().map(|&k| Case { hist: *h, n: h.size(quick), offset: 0, thread: k });
+                first.chain(later).collect::<Vec<_>>()
+            })
+            .collect();
+        let results: Vec<Result<MenuOk, MenuFail>> = {
             use std::sync::atomic::AtomicUsize;
             use std::sync::Mutex;
             // longest first, 16 workers taking the next case from a shared counter
             let mut order: Vec<usize> = (0..cases.len()).collect();
-            order.sort_by_key(|&i| std::cmp::Reverse(cases[i].0.cost(cases[i].2)));
+            order.sort_by_key(|&i| std::cmp::Reverse(cases[i].hist.cost(cases[i].n)));
             let next = AtomicUsize::new(0);
-            let out: Mutex<Vec<Option<Result<MenuOk, String>>>> = Mutex::new((0..cases.len()).map(|_| None).collect());
+            let out: Mutex<Vec<Option<Result<MenuOk, MenuFail>>>> = Mutex::new((0..cases.len()).map(|_| None).collect());
             std::thread::scope(|sc| {
                 for _ in 0..16 {
                     sc.spawn(|| loop {
                         let j = next.fetch_add(1, Ordering::Relaxed);
                         let Some(&i) = order.get(j) else { break };
-                        let (h, o, n) = cases[i];
-                        let r = menu_case(h, n, o);
+                        let r = cases[i].run_in_child();
                         out.lock().unwrap()[i] = Some(r);
                     });
                 }
@@ -1363,9 +1764,8 @@ fn main() {
         let mut probes = 0u64;
         let mut failed_families: Vec<&'static str> = vec![];
         let mut per_family: Vec<(&'static str, u64, u64)> = vec![]; // (family, cases, max height)
-        // menu order (simplest parameters first), then stream offsets
-        for ((h, o, n), r) in cases.iter().zip(results) {
-            let fam = h.family();
+        for (case, r) in cases.iter().zip(results) {
+            let fam = case.hist.family();
             if per_family.last().map(|f| f.0) != Some(fam) {
                 per_family.push((fam, 0, 0));
             }
@@ -1374,19 +1774,20 @@ fn main() {
             match r {
                 Ok(ok) => {
                     if ok.probes == 0 {
-                        run.machinery_failure(&format!("history {} was never probed", h.label()));
+                        run.machinery_failure(&format!("history {} was never probed", case.hist.label()));
                     }
                     maxh = maxh.max(ok.maxh);
                     pf.2 = pf.2.max(ok.maxh as u64);
                     ops += ok.steps as u64;
                     probes += ok.probes;
                 }
-                Err(msg) => {
-                    // one report per family: its first failing history and stream offset
+                Err(f) if f.machinery => run.machinery_failure(&f.msg),
+                Err(f) => {
+                    // one report per family: its first failing case
                     if !failed_families.contains(&fam) {
                         failed_families.push(fam);
-                        let name = h.label();
-                        run.violation(Violation::new(format!("menu:{name}:offset={o}:n={n}"), msg, json!({"kind": "menu", "name": name, "n": n, "offset": o})));
+                        let case = Case { n: f.n.unwrap_or(case.n), ..*case };
+                        run.violation(Violation::new(case.signature(), f.msg, case.to_json()));
                     }
                 }
             }
@@ -1403,21 +1804,31 @@ fn main() {
         run.cov(
             "directed_histories_note",
             format!(
-                "DIRECTED, NOT exhaustive: a fixed menu of {} deterministic histories through the real priority generator, each on a thread of its own at the stream offsets {:?} (node creations of the thread before the history; strided histories at {:?}); height against 5*log2(n+1)+20 and heap order probed at every doubling of the size. \
+                "DIRECTED, NOT exhaustive: a fixed menu of {} deterministic histories through the real priority generator. Every case runs in a PROCESS of its own (this binary re-executed), on a thread of its own, at the stream offsets {:?} (node creations of the thread before the history; strided histories at {:?}); append / push_front also with offset 0 on thread ordinals {:?} (that many threads of the process, one after another, create one node each before the history's thread does). Nothing else creates nodes in that process, so a case is reproducible whatever the code keeps per thread or per process. Height against 5*log2(n+1)+20 and heap order probed at every doubling of the size. \
                  Families: (a) one treap of {n} consecutive creations (10^6 for append / push_front): sorted appends, front insertion, insertion at 1/2 and 1/3, split-and-swap rotations, append/remove alternation, two treaps merged, from_item+merge; \
                  (b) blocks: blocks of b in {:?} elements, each built in its own Treap::new() by appends or by front insertions, or started by from_item, and concatenated with merge(t, blk) or merge(blk, t) up to {n} elements; \
                  (c) strided: k in {:?} treaps filled round-robin by appends or by front insertions (each owns every k-th creation), max({total}/k, 256) elements each, EVERY one of the k treaps probed at every doubling, finally all merged; \
                  (d) window: max({}/w, 256) rounds of w insertions at one end followed by removal of the w-1 older ones of the burst (survivors = every w-th creation), same set of w, probed at the peak and after the removals; \
                  (e) queue: fixed length in {:?}, insert at one end + remove at the other for {total} steps, probed once per turnover; \
-                 (f) interleaved: appends / front insertions with operations that create no node between any two of them ({:?}: Treap::new(), merge with an empty treap, split_at+merge on a second treap, first/last/root/size on it, split_at+merge of the treap itself)",
+                 (f) interleaved: appends / front insertions with operations that create no node between any two of them ({:?}: Treap::new(), merge with an empty treap, split_at+merge on a second treap, first/last/root/size on it, split_at+merge of the treap itself); \
+                 (g) regrow: {REGROW_BASE} elements, then one / half / all of them removed by remove_at at the front / in the middle / at the back, then {n} appends or front insertions with no removal in between; \
+                 (h) thread_ordinals: threads #0 … #{} of a process, one after another, each the next thread of the process to create a node, each builds a treap of {ORDINAL_ELEMS} elements by appends (front insertions), probed at every doubling; \
+                 (i) chunks built on different threads: T in {:?} threads, one after another, each build a chunk of c in {:?} elements (Treap::new()+appends, Treap::new()+front insertions, or merge(t, from_item(x)) per element) as their first node creations and hand it to the collecting thread, which concatenates them with acc = merge(acc, chunk), with acc = merge(chunk, acc), or pairwise in a balanced tree of merges; every chunk and every intermediate result is probed; \
+                 (j) roundrobin: T in {:?} live worker threads answer one request at a time with a freshly created single-node treap (worker w creates nodes w, w+T, … of the sequence), the collecting thread puts them into one treap by merge at the back, merge at the front, or split_at in the middle + two merges, {}/T nodes per worker",
                 hists.len(),
                 Hist::Basic("append").offsets(),
                 Hist::Strided { k: 2, front: false }.offsets(),
+                Hist::Basic("append").later_threads(),
                 BLOCK_SIZES,
                 STRIDES,
                 total / 2,
                 QUEUE_LENS,
-                QUIET_OPS
+                QUIET_OPS,
+                Hist::Ordinals { front: false }.size(quick) - 1,
+                CHUNK_THREADS,
+                CHUNK_SIZES,
+                RR_THREADS,
+                total / 8
             ),
         );
         run.sample(json!({"directed_history": "append", "elements": n, "max_height_over_menu": maxh}));
